@@ -60,11 +60,29 @@ def run(rep, tier):
     }
     value = Doc(x=None, y=6, inner=In(p=None, q=2))
     n = 0
+    # a dialect's options are whatever the class exposes: declared on the class itself, inherited from a parent dialect
+    # class, or a mix of both (the child adds a second option)
+    variants = []
     for oname, ns in options.items():
-        D = type("D_" + oname, (Dialect,), dict(ns))
+        variants.append((oname, "own", type("D_" + oname, (Dialect,), dict(ns))))
+        parent = type("P_" + oname, (Dialect,), dict(ns))
+        parent.__module__ = __name__
+        globals()[parent.__name__] = parent
+        variants.append((oname, "inherited", type("DI_" + oname, (parent,), {})))
+        other = "omit_default" if oname != "omit_default" else "omit_none"
+        variants.append((oname + "+" + other, "inherited+own", type("DM_" + oname, (parent,), dict(options[other]))))
+        variants.append((oname + "+" + other, "own+own", type("DO_" + oname, (Dialect,), {**ns, **options[other]})))
+    reference = {}
+    for oname, how, D in variants:
         D.__module__ = __name__
         globals()[D.__name__] = D          # importable by name, like a dialect defined at module level
         basic = BasicEncoder(Doc, default_dialect=D).encode(value)
+        # the same options must mean the same document however the dialect class came by them
+        if oname in reference and reference[oname] != basic:
+            rep.violation("codec-dialect-option", {"format": "basic", "option": oname + " (" + how + ")", "expected": _j(reference[oname]), "actual": _j(basic),
+                                                   "replay_module": "harness.checks.c13_formats"})
+        reference.setdefault(oname, basic)
+        oname = oname + " (" + how + ")"
         for fname, (Enc, parse) in parsers.items():
             doc = parse(Enc(Doc, default_dialect=D).encode(value))
             exp = _drop_none(basic) if fname == "toml" else basic      # TOML has no null: its dialect omits None
